@@ -66,7 +66,7 @@ func c09Build() *Context {
 		ops: []vOp{
 			{method: "POST", path: "/notes", id: "addNote", consumes: []string{"application/json", "text/plain"}, produces: []string{"application/json", "text/plain"}, success: 201, params: []spec.Parameter{*body}},
 			{method: "POST", path: "/items/{id}", id: "addItem", consumes: []string{"application/json", "text/plain"}, produces: []string{"application/json", "text/plain"}, success: 201,
-				params:   []spec.Parameter{*spec.PathParam("id").Typed("string", ""), *body},
+				params:   []spec.Parameter{*spec.PathParam("id").Typed("string", ""), *spec.QueryParam("need").Typed("string", "").AsRequired(), *body},
 				security: []map[string][]string{{"key": {"write"}}}},
 		}}
 	doc := vDoc(vSwagger(d))
@@ -111,7 +111,7 @@ func c09Build() *Context {
 }
 
 func c09Req(path, ct, accept, body string) *http.Request {
-	r := &http.Request{Method: "POST", Header: http.Header{}, URL: &url.URL{Path: path}, ContentLength: int64(len(body)), Body: &c09Body{data: body}}
+	r := &http.Request{Method: "POST", Header: http.Header{}, URL: &url.URL{Path: path, RawQuery: "need=1"}, ContentLength: int64(len(body)), Body: &c09Body{data: body}}
 	r.Header.Set("Content-Type", ct)
 	if accept != "" {
 		r.Header.Set("Accept", accept)
@@ -126,9 +126,14 @@ func VerifC09Memo() {
 	ctx := zv.Cached("c09", func() interface{} { return c09Build() }).(*Context)
 	vRec = &vRecorder{}
 	c09S = &c09Script{principal: c09Principals[zv.Choose("principal", len(c09Principals))]}
-	ct := []string{"application/json", "text/plain", "image/png"}[zv.Choose("ct", 3)]
+	ct := []string{"application/json", "text/plain", "image/png", "application/json; charset=UTF-8"}[zv.Choose("ct", 4)]
 	accept := []string{"", "text/plain", "image/png"}[zv.Choose("accept", 3)]
 	r := c09Req("/items/42", ct, accept, "abc")
+	// the request may also be invalid at the parameter stage (required query parameter missing)
+	if zv.Choose("required-parameter-sent", 2) == 0 {
+		r.URL.RawQuery = ""
+	}
+	var firstCS string
 	var route *MatchedRoute
 	var firstFormat string
 	haveFormat := false
@@ -153,13 +158,13 @@ func VerifC09Memo() {
 			route, r = rt, r2
 			zv.Assert("route-looked-up-at-most-once", c09S.lookups == 1)
 		case 1:
-			mt, _, r2, err := ctx.ContentType(r)
+			mt, cs, r2, err := ctx.ContentType(r)
 			if err == nil {
 				if haveCT {
 					zv.Reach("ct-again")
-					zv.Assert("content-type-reused", mt == firstCT && r2 == r)
+					zv.Assert("content-type-reused", mt == firstCT && cs == firstCS && r2 == r)
 				}
-				firstCT, haveCT = mt, true
+				firstCT, firstCS, haveCT = mt, cs, true
 				r = r2
 			}
 		case 2:
